@@ -26,3 +26,922 @@ Proof. induction l as [|x l IH]; intro v; cbn; [reflexivity|]. now rewrite to_va
 
 Lemma to_sys_of_sys y0 ny sy : to_sys y0 ny (of_sys sy) = sy.
 Proof. destruct sy. unfold to_sys, of_sys; cbn. now rewrite to_vars_of_vars. Qed.
+
+(** * Lists *)
+
+Lemma nth_error_set_nth_neq {A} (a : A) : forall l j i, i <> j -> nth_error (set_nth j a l) i = nth_error l i.
+Proof.
+  induction l as [|x l IH]; intros j i H; [destruct j; reflexivity|].
+  destruct j as [|j], i as [|i]; cbn; try reflexivity; try congruence. apply IH. congruence.
+Qed.
+
+Lemma nth_error_set_nth_eq {A} (a : A) : forall l j, j < length l -> nth_error (set_nth j a l) j = Some a.
+Proof.
+  induction l as [|x l IH]; intros j H; cbn in H; [lia|].
+  destruct j as [|j]; cbn; [reflexivity|]. apply IH. lia.
+Qed.
+
+Lemma length_set_nth {A} (a : A) : forall l j, length (set_nth j a l) = length l.
+Proof. induction l as [|x l IH]; intros [|j]; cbn; auto. Qed.
+
+Lemma nth_error_lt {A} (l : list A) i x : nth_error l i = Some x -> i < length l.
+Proof. intro H. apply nth_error_Some. congruence. Qed.
+
+(** * Frame: a derivation never touches another system *)
+
+(** every entity object of system number i is bound to system number i *)
+Definition entities_bound (w : world) : Prop :=
+  forall i e id, nth_error (w_entries w) i = Some e -> In id (e_ents e) -> nth_error (w_heap w) id = Some i.
+
+Lemma initial_bound s : entities_bound (initial s).
+Proof.
+  intros i e id Hi Hin. destruct i as [|i]; cbn in Hi; [|destruct i; discriminate].
+  inversion Hi; subst e. cbn in Hin. destruct Hin as [<-|[<-|[]]]; reflexivity.
+Qed.
+
+(** what a modification of system j does to the world *)
+Definition only_entry_changed (w w' : world) (j : nat) : Prop :=
+  w_heap w' = w_heap w
+  /\ length (w_entries w') = length (w_entries w)
+  /\ (forall i, i <> j -> nth_error (w_entries w') i = nth_error (w_entries w) i)
+  /\ (forall e', nth_error (w_entries w') j = Some e' ->
+        exists e, nth_error (w_entries w) j = Some e /\ e_ents e' = e_ents e /\ e_base e' = e_base e).
+
+Lemma only_entry_changed_refl w j : only_entry_changed w w j.
+Proof. repeat split; auto. intros e' H. exists e'. auto. Qed.
+
+Lemma only_entry_changed_trans w1 w2 w3 j :
+  only_entry_changed w1 w2 j -> only_entry_changed w2 w3 j -> only_entry_changed w1 w3 j.
+Proof.
+  intros (A1 & A2 & A3 & A4) (B1 & B2 & B3 & B4). repeat split; try congruence.
+  - intros i Hi. rewrite B3, A3; auto.
+  - intros e3 H3. destruct (B4 e3 H3) as (e2 & H2 & E1 & E2).
+    destruct (A4 e2 H2) as (e1 & H1 & F1 & F2). exists e1. repeat split; congruence.
+Qed.
+
+Lemma set_entry_changed w j e s :
+  nth_error (w_entries w) j = Some e ->
+  only_entry_changed w {| w_entries := set_nth j (with_sys e s) (w_entries w); w_heap := w_heap w |} j.
+Proof.
+  intro He. repeat split; cbn [w_entries w_heap].
+  - apply length_set_nth.
+  - intros i Hi. now apply nth_error_set_nth_neq.
+  - intros e' H. rewrite nth_error_set_nth_eq in H by (eapply nth_error_lt; eauto).
+    inversion H; subst e'. exists e. auto.
+Qed.
+
+Lemma apply_mod_frame w j m w' : apply_mod w j m = Ok w' -> only_entry_changed w w' j.
+Proof.
+  unfold apply_mod. destruct (nth_error (w_entries w) j) as [e|] eqn:He; [|discriminate].
+  assert (G : forall s, only_entry_changed w
+              {| w_entries := set_nth j (with_sys e s) (w_entries w); w_heap := w_heap w |} j)
+    by (intro s; now apply set_entry_changed).
+  destruct m; try (destruct (apply_var_mod (e_sys e) _); [|discriminate]; intro H; inversion H; subst; apply G).
+  destruct (e_base e) as [b|]; [|discriminate].
+  destruct (nth_error (w_entries w) b); [|discriminate].
+  destruct (apply_param_updates _ _); [|discriminate]. intro H; inversion H; subst. apply G.
+Qed.
+
+Lemma apply_mods_frame ms : forall w j w', apply_mods w j ms = Ok w' -> only_entry_changed w w' j.
+Proof.
+  induction ms as [|m ms IH]; intros w j w' H; cbn in H.
+  - inversion H; subst. apply only_entry_changed_refl.
+  - destruct (apply_mod w j m) as [w1|] eqn:E; [|discriminate].
+    eapply only_entry_changed_trans; [eapply apply_mod_frame; eauto|eauto].
+Qed.
+
+Lemma only_entry_changed_bound w w' j :
+  only_entry_changed w w' j -> entities_bound w -> entities_bound w'.
+Proof.
+  intros (A1 & A2 & A3 & A4) Hb i e id Hi Hin. rewrite A1.
+  destruct (Nat.eq_dec i j) as [->|Hne].
+  - destruct (A4 e Hi) as (e0 & H0 & E1 & E2). rewrite E1 in Hin. eapply Hb; eauto.
+  - rewrite A3 in Hi by exact Hne. eapply Hb; eauto.
+Qed.
+
+(** appending a system with freshly allocated entities *)
+Lemma alloc_bound w e0 :
+  entities_bound w ->
+  entities_bound {| w_entries := w_entries w ++ [ {| e_sys := e_sys e0; e_base := e_base e0;
+                                                    e_ents := seq (length (w_heap w)) nb_entities |} ];
+                    w_heap := w_heap w ++ repeat (length (w_entries w)) nb_entities |}.
+Proof.
+  intros Hb i e id Hi Hin. cbn [w_entries w_heap] in *.
+  destruct (Nat.lt_ge_cases i (length (w_entries w))) as [Hlt|Hge].
+  - rewrite nth_error_app1 in Hi by exact Hlt.
+    pose proof (Hb i e id Hi Hin) as H. rewrite nth_error_app1; [exact H|]. eapply nth_error_lt; eauto.
+  - rewrite nth_error_app2 in Hi by exact Hge.
+    destruct (i - length (w_entries w)) as [|k] eqn:Ek; cbn in Hi; [|destruct k; discriminate].
+    inversion Hi; subst e. cbn [e_ents] in Hin. assert (i = length (w_entries w)) by lia. subst i.
+    assert (Hid : length (w_heap w) <= id < length (w_heap w) + nb_entities).
+    { unfold nb_entities in *. cbn in Hin. destruct Hin as [<-|[<-|[]]]; lia. }
+    rewrite nth_error_app2 by lia.
+    unfold nb_entities in *. cbn [repeat].
+    destruct (id - length (w_heap w)) as [|[|k]] eqn:Ed; cbn; try reflexivity. lia.
+Qed.
+
+Lemma apply_dop_frame w o w' i e :
+  apply_dop false w o = Ok w' -> entities_bound w -> target_of o <> Some i ->
+  nth_error (w_entries w) i = Some e ->
+  entities_bound w' /\ nth_error (w_entries w') i = Some e.
+Proof.
+  intros H Hb Ht Hi. destruct o as [i0|i0 ms|j m]; cbn [apply_dop] in H.
+  - destruct (nth_error (w_entries w) i0) as [e0|]; [|discriminate].
+    unfold alloc_entities in H. inversion H; subst w'; clear H. split.
+    + apply (alloc_bound w {| e_sys := e_sys e0; e_base := e_base e0; e_ents := [] |} Hb).
+    + cbn [w_entries]. rewrite nth_error_app1; [exact Hi|]. eapply nth_error_lt; eauto.
+  - destruct (nth_error (w_entries w) i0) as [e0|]; [|discriminate].
+    unfold alloc_entities in H.
+    apply apply_mods_frame in H. pose proof H as (A1 & A2 & A3 & A4). split.
+    + eapply only_entry_changed_bound; [exact H|].
+      apply (alloc_bound w {| e_sys := e_sys e0; e_base := Some i0; e_ents := [] |} Hb).
+    + rewrite A3; cbn [w_entries].
+      * rewrite nth_error_app1; [exact Hi|]. eapply nth_error_lt; eauto.
+      * apply nth_error_lt in Hi. lia.
+  - apply apply_mod_frame in H. pose proof H as (A1 & A2 & A3 & A4). split.
+    + eapply only_entry_changed_bound; eauto.
+    + rewrite A3; [exact Hi|]. intro; subst. apply Ht. reflexivity.
+Qed.
+
+(** the observations of a system depend on its own entry only *)
+Lemma resolve_bound w i e k id :
+  entities_bound w -> nth_error (w_entries w) i = Some e -> nth_error (e_ents e) k = Some id ->
+  resolve w i k = Some i.
+Proof.
+  intros Hb Hi Hk. unfold resolve. rewrite Hi, Hk. eapply Hb; eauto. eapply nth_error_In; eauto.
+Qed.
+
+Definition look_entry (e : entry) (nnames : nat) (ds : list Z) : obs :=
+  OL [ look_table (e_sys e) nnames;
+       OL (map (fun k => match nth_error (e_ents e) k with
+                         | Some _ => look_table (e_sys e) nnames
+                         | None => ONone
+                         end) (seq 0 nb_entities));
+       look_params (e_sys e) ds ].
+
+Lemma look_bound w i e nnames ds :
+  entities_bound w -> nth_error (w_entries w) i = Some e -> look w i nnames ds = look_entry e nnames ds.
+Proof.
+  intros Hb Hi. unfold look, sys_at, look_entry. rewrite Hi. cbn [option_map].
+  f_equal. f_equal. f_equal. f_equal. apply map_ext. intro k. unfold sys_via_entity.
+  destruct (nth_error (e_ents e) k) as [id|] eqn:Hk.
+  - rewrite (resolve_bound w i e k id Hb Hi Hk). unfold sys_at. rewrite Hi. reflexivity.
+  - unfold resolve. rewrite Hi, Hk. reflexivity.
+Qed.
+
+Theorem derivation_frame_lemma : forall os w i e,
+  entities_bound w -> nth_error (w_entries w) i = Some e ->
+  (forall o, In o os -> target_of o <> Some i) ->
+  let w' := run_dops false w os in
+  nth_error (w_entries w') i = Some e
+  /\ entities_bound w'
+  /\ (forall k id, nth_error (e_ents e) k = Some id -> resolve w' i k = Some i)
+  /\ (forall nnames ds, look w' i nnames ds = look w i nnames ds)
+  /\ (forall y0 ny pp s rs, eval_on y0 ny w' i pp s rs = eval_on y0 ny w i pp s rs)
+  /\ (forall y0 ny pp inputs rs, eval_fresh y0 ny w' i pp inputs rs = eval_fresh y0 ny w i pp inputs rs)
+  /\ (forall y0 ny pp inp v p, sem_in y0 ny w' i pp inp v p = sem_in y0 ny w i pp inp v p).
+Proof.
+  intros os w i e Hb Hi Ht.
+  assert (G : nth_error (w_entries (run_dops false w os)) i = Some e /\ entities_bound (run_dops false w os)).
+  { revert w Hb Hi. unfold run_dops. induction os as [|o os IH]; intros w Hb Hi; cbn [fold_left]; [auto|].
+    assert (Hstep : entities_bound (do_dop false w o) /\ nth_error (w_entries (do_dop false w o)) i = Some e).
+    { unfold do_dop. destruct (apply_dop false w o) as [w1|] eqn:E; [|auto].
+      eapply apply_dop_frame; eauto. apply Ht. now left. }
+    destruct Hstep as [Hb1 Hi1]. apply IH; auto. intros o' Ho'. apply Ht. now right. }
+  destruct G as [Hi' Hb']. cbv zeta.
+  repeat split; auto.
+  - intros k id Hk. eapply resolve_bound; eauto.
+  - intros. rewrite (look_bound _ i e _ _ Hb' Hi'), (look_bound _ i e _ _ Hb Hi). reflexivity.
+  - intros. unfold eval_on, sys_at. now rewrite Hi', Hi.
+  - intros. unfold eval_fresh, eval_on, sys_at. now rewrite Hi', Hi.
+  - intros. unfold sem_in, sys_at. now rewrite Hi', Hi.
+Qed.
+
+(** * What each modification does to the system it is applied to *)
+
+Lemma store_var_spec s name x s' :
+  store_var s name x = Ok s' -> name < length (s_vars s) ->
+  nth_error (s_vars s') name = Some x
+  /\ (forall u, u <> name -> nth_error (s_vars s') u = nth_error (s_vars s) u)
+  /\ length (s_vars s') = length (s_vars s)
+  /\ s_params s' = s_params s /\ s_switches s' = s_switches s /\ s_loops s' = s_loops s.
+Proof.
+  unfold store_var. intros H Hlt. apply Nat.ltb_lt in Hlt. rewrite Hlt in H. inversion H; subst s'.
+  apply Nat.ltb_lt in Hlt. cbn. repeat split; auto.
+  - now apply nth_error_set_nth_eq.
+  - intros u Hu. now apply nth_error_set_nth_neq.
+  - apply length_set_nth.
+Qed.
+
+Definition decl {A} (o : option A) (inherited : A) : A := match o with Some a => a | None => inherited end.
+
+(** Variable.__init__ with a baseline variable: attributes the class does not define are the
+    baseline's; the formulas are the baseline's dated before the first new one, then the new. *)
+Lemma instantiate_update x d x' :
+  instantiate (Some x) d = Ok x' ->
+  sv_ent x' = decl (d_ent d) (sv_ent x)
+  /\ sv_type x' = decl (d_type d) (sv_type x)
+  /\ sv_unit x' = decl (d_unit d) (sv_unit x)
+  /\ sv_default x' = decl (d_default d) (sv_default x)
+  /\ sv_end x' = match d_end d with Some e => Some e | None => sv_end x end
+  /\ sv_neutral x' = false
+  /\ sv_formulas x' = inherited (sv_formulas x) (d_formulas d) ++ fresh_formulas (d_formulas d).
+Proof.
+  unfold instantiate, or_else, decl. cbn [option_map].
+  destruct (d_type d), (d_ent d), (d_unit d);
+    match goal with |- context [if ?c then _ else _] => destruct c end;
+    intro H; inversion H; subst x'; cbn; destruct (d_end d), (d_default d); repeat split; reflexivity.
+Qed.
+
+Lemma inherited_in b new f :
+  In f (inherited b new) <->
+  In f b /\ match new with [] => True | (d0, _) :: _ => date_ltb (f_start f) d0 = true end.
+Proof.
+  unfold inherited. destruct new as [|[d0 e0] r]; [tauto|]. rewrite filter_In. tauto.
+Qed.
+
+Lemma fresh_in new f : In f (fresh_formulas new) <-> f_wrapped f = false /\ In (f_start f, f_body f) new.
+Proof.
+  unfold fresh_formulas. rewrite in_map_iff. split.
+  - intros ([s e] & <- & Hin). cbn. auto.
+  - intros [Hw Hin]. exists (f_start f, f_body f). split; auto.
+    destruct f as [[s e] w]. cbn in *. now subst w.
+Qed.
+
+Theorem update_inherits_lemma : forall s v d s' x,
+  nth_error (s_vars s) v = Some x -> apply_var_mod s (UpdateVar v d) = Ok s' ->
+  exists x', nth_error (s_vars s') v = Some x'
+  /\ (forall u, u <> v -> nth_error (s_vars s') u = nth_error (s_vars s) u)
+  /\ s_params s' = s_params s
+  (* attributes the class does not define are kept *)
+  /\ sv_ent x' = decl (d_ent d) (sv_ent x) /\ sv_type x' = decl (d_type d) (sv_type x)
+  /\ sv_unit x' = decl (d_unit d) (sv_unit x) /\ sv_default x' = decl (d_default d) (sv_default x)
+  /\ sv_end x' = match d_end d with Some e => Some e | None => sv_end x end
+  /\ sv_neutral x' = false
+  (* the formulas: exactly the earlier-dated old ones and the new ones *)
+  /\ (forall f, In f (sv_formulas x') <->
+        (In f (sv_formulas x)
+         /\ match d_formulas d with [] => True | (d0, _) :: _ => date_ltb (f_start f) d0 = true end)
+        \/ (f_wrapped f = false /\ In (f_start f, f_body f) (d_formulas d))).
+Proof.
+  intros s v d s' x Hx H. cbn [apply_var_mod] in H. rewrite Hx in H.
+  destruct (instantiate (Some x) d) as [x'|] eqn:Ei; [|discriminate].
+  destruct (store_var_spec s v x' s' H (nth_error_lt _ _ _ Hx)) as (S1 & S2 & S3 & S4 & _).
+  destruct (instantiate_update x d x' Ei) as (A1 & A2 & A3 & A4 & A5 & A6 & A7).
+  exists x'. repeat split; auto.
+  - rewrite A7. intro Hin. apply in_app_or in Hin as [Hin|Hin].
+    + left. now apply inherited_in.
+    + right. now apply fresh_in.
+  - rewrite A7. intros [Hin|Hin]; apply in_or_app.
+    + left. now apply inherited_in.
+    + right. now apply fresh_in.
+Qed.
+
+(** * Rendering of the variable table *)
+
+Lemma nth_error_to_vars y0 ny : forall l k v,
+  nth_error (to_vars y0 ny k l) v = option_map (to_var y0 ny (k + v)) (nth_error l v).
+Proof.
+  induction l as [|x l IH]; intros k v; [destruct v; reflexivity|].
+  destruct v as [|v]; cbn [to_vars nth_error option_map].
+  - now rewrite Nat.add_0_r.
+  - rewrite IH. now replace (S k + v) with (k + S v) by lia.
+Qed.
+
+Lemma nth_error_to_sys y0 ny s v :
+  nth_error (vars (to_sys y0 ny s)) v = option_map (to_var y0 ny v) (nth_error (s_vars s) v).
+Proof. unfold to_sys; cbn [vars]. now rewrite nth_error_to_vars. Qed.
+
+Lemma length_to_vars y0 ny : forall l k, length (to_vars y0 ny k l) = length l.
+Proof. induction l as [|x l IH]; intro k; cbn; auto. Qed.
+
+(** * Neutralised variables *)
+
+Theorem neutralised_spec_lemma : forall y0 ny s v x s',
+  nth_error (s_vars s) v = Some x -> apply_var_mod s (Neutralize v) = Ok s' ->
+  let sy' := to_sys y0 ny s' in
+  exists x', nth_error (vars sy') v = Some x'
+  /\ v_default x' = sv_default x /\ v_unit x' = sv_unit x /\ v_ent x' = sv_ent x /\ v_neutral x' = true
+  /\ (forall u, u <> v -> nth_error (s_vars s') u = nth_error (s_vars s) u)
+  /\ s_params s' = s_params s
+  (* the meaning is the default, whatever the inputs *)
+  /\ (forall pp inp p, sem sy' pp inp v p =
+        match check_consistency x' p with Err e => Err e | Ok _ => Ok (default_array pp x') end)
+  (* so is the answer of the machine, in any state *)
+  /\ (forall pp st fuel p, snd (calc (S fuel) sy' pp st v p) =
+        match check_consistency x' p with Err e => Err e | Ok _ => Ok (default_array pp x') end)
+  (* and setting an input changes nothing *)
+  /\ (forall pp st p a, fst (set_input sy' pp st v p a) = st).
+Proof.
+  intros y0 ny s v x s' Hx H sy'. cbn [apply_var_mod] in H. rewrite Hx in H.
+  destruct (store_var_spec s v _ s' H (nth_error_lt _ _ _ Hx)) as (S1 & S2 & S3 & S4 & _).
+  assert (Hn : nth_error (vars sy') v = Some (to_var y0 ny v (neutralized x))).
+  { unfold sy'. now rewrite nth_error_to_sys, S1. }
+  exists (to_var y0 ny v (neutralized x)). repeat split; auto.
+  - intros pp inp p. unfold sem, sem_rec. cbn [den]. rewrite Hn.
+    destruct (check_consistency _ p); reflexivity.
+  - intros pp st fuel p. cbn [calc]. unfold calc_body. rewrite Hn.
+    destruct (check_consistency _ p); [|reflexivity].
+    unfold get_array. cbn [to_var v_neutral neutralized sv_neutral]. reflexivity.
+  - intros pp st p a. unfold set_input. rewrite Hn.
+    cbn [to_var v_neutral neutralized sv_neutral v_end v_unit].
+    repeat match goal with |- context [if ?c then _ else _] => destruct c; try reflexivity end.
+Qed.
+
+(** * Modified parameters *)
+
+Definition updates_of (k : nat) (ups : list (nat * upd Z)) : list (upd Z) :=
+  map snd (filter (fun ku => Nat.eqb (fst ku) k) ups).
+
+Lemma apply_param_updates_spec : forall ups ps ps',
+  apply_param_updates ps ups = Ok ps' ->
+  length ps' = length ps
+  /\ forall k h, nth_error ps k = Some h ->
+       exists h', nth_error ps' k = Some h'
+                  /\ forall d, get_at h' d = fold_left override (updates_of k ups) (get_at h) d.
+Proof.
+  induction ups as [|[k0 u] ups IH]; intros ps ps' H; cbn [apply_param_updates] in H.
+  - inversion H; subst. split; auto. intros k h Hk. exists h. auto.
+  - unfold apply_param_update in H. cbn [fst snd] in H.
+    destruct (nth_error ps k0) as [h0|] eqn:E0; [|discriminate].
+    destruct (IH _ _ H) as [L1 L2]. rewrite length_set_nth in L1. split; auto.
+    intros k h Hk. unfold updates_of. cbn [filter fst].
+    destruct (Nat.eqb_spec k0 k) as [->|Hne].
+    + rewrite Hk in E0. inversion E0; subst h0.
+      destruct (L2 k (apply_update h u)) as (h' & Hh' & Hg).
+      { apply nth_error_set_nth_eq. eapply nth_error_lt; eauto. }
+      exists h'. split; auto. intro d. rewrite Hg. cbn [map snd fold_left].
+      apply fold_override_ext. intro d'. destruct u as [[s e] v]. unfold override, apply_update.
+      apply update_range_spec.
+    + destruct (L2 k h) as (h' & Hh' & Hg).
+      { rewrite nth_error_set_nth_neq by congruence. exact Hk. }
+      exists h'. auto.
+Qed.
+
+(** Reform.modify_parameters: the derived system reads, at every date, the BASELINE's value
+    overridden by the declared updates in turn (each one on its span start..stop, open when
+    no stop is given); the baseline is not changed (derivation_frame). *)
+Theorem modified_parameters_lemma : forall w j ups w' e b eb,
+  apply_mod w j (ModifyParams ups) = Ok w' ->
+  nth_error (w_entries w) j = Some e -> e_base e = Some b -> nth_error (w_entries w) b = Some eb ->
+  exists e', nth_error (w_entries w') j = Some e'
+  /\ s_vars (e_sys e') = s_vars (e_sys e)
+  /\ forall k h, nth_error (s_params (e_sys eb)) k = Some h ->
+       exists h', nth_error (s_params (e_sys e')) k = Some h'
+                  /\ forall d, get_at h' d = fold_left override (updates_of k ups) (get_at h) d.
+Proof.
+  intros w j ups w' e b eb H He Hb Heb. unfold apply_mod in H. rewrite He, Hb, Heb in H.
+  destruct (apply_param_updates (s_params (e_sys eb)) ups) as [ps|] eqn:E; [|discriminate].
+  inversion H; subst w'; clear H. cbn [w_entries].
+  exists (with_sys e (with_params (e_sys e) ps)). split; [|split; [reflexivity|]].
+  - apply nth_error_set_nth_eq. eapply nth_error_lt; eauto.
+  - cbn. apply (apply_param_updates_spec ups _ _ E).
+Qed.
+
+(** the same updates made in place on the tree a copy owns *)
+Theorem edited_parameters_lemma : forall s ups s',
+  apply_var_mod s (EditParams ups) = Ok s' ->
+  s_vars s' = s_vars s
+  /\ forall k h, nth_error (s_params s) k = Some h ->
+       exists h', nth_error (s_params s') k = Some h'
+                  /\ forall d, get_at h' d = fold_left override (updates_of k ups) (get_at h) d.
+Proof.
+  intros s ups s' H. cbn [apply_var_mod] in H.
+  destruct (apply_param_updates (s_params s) ups) as [ps|] eqn:E; [|discriminate].
+  inversion H; subst s'. split; [reflexivity|]. cbn. apply (apply_param_updates_spec ups _ _ E).
+Qed.
+
+(** * Annualised variables *)
+
+Open Scope Z_scope.
+
+Lemma latest_formula_app : forall l1 l2 d acc,
+  latest_formula (l1 ++ l2) d acc = latest_formula l2 d (latest_formula l1 d acc).
+Proof.
+  induction l1 as [|[s e] l1 IH]; intros l2 d acc; cbn [app latest_formula]; [reflexivity|].
+  destruct (date_leb s d); apply IH.
+Qed.
+
+Lemma latest_formula_later : forall l d acc,
+  (forall s e, In (s, e) l -> date_leb s d = false) -> latest_formula l d acc = acc.
+Proof.
+  induction l as [|[s e] l IH]; intros d acc H; cbn [latest_formula]; [reflexivity|].
+  rewrite (H s e (or_introl eq_refl)). apply IH. intros s' e' Hin. apply (H s' e'). now right.
+Qed.
+
+(** a list produced piecewise from an increasing sequence of indices: the piece of index [t]
+    decides, when all later pieces are dated after [d] *)
+Lemma latest_formula_flat_map (g : nat -> list (date * expr)) d r : forall n a t acc,
+  (a <= t < a + n)%nat ->
+  (forall j s e, (t < j)%nat -> In (s, e) (g j) -> date_leb s d = false) ->
+  (forall acc', latest_formula (g t) d acc' = Some r) ->
+  latest_formula (flat_map g (seq a n)) d acc = Some r.
+Proof.
+  induction n as [|n IH]; intros a t acc Ht Hlater Hdec; [lia|].
+  cbn [seq flat_map]. rewrite latest_formula_app.
+  destruct (Nat.eq_dec a t) as [->|Hne].
+  - rewrite Hdec. apply latest_formula_later. intros s e Hin.
+    apply in_flat_map in Hin as (j & Hj & Hin). apply in_seq in Hj. apply (Hlater j s e); [lia|exact Hin].
+  - apply IH with (t := t); auto. lia.
+Qed.
+
+Lemma date_leb_refl d : date_leb d d = true.
+Proof.
+  destruct d as [[y m] dd]. unfold date_leb. rewrite !Z.eqb_refl, Z.leb_refl. cbn.
+  now rewrite !orb_true_r.
+Qed.
+
+Lemma date_leb_later_month y m' m : m < m' -> date_leb (y, m', 1) (y, m, 1) = false.
+Proof.
+  intro H. unfold date_leb. rewrite Z.ltb_irrefl, Z.eqb_refl. cbn.
+  destruct (Z.ltb_spec m' m); [lia|]. destruct (Z.eqb_spec m' m); [lia|]. reflexivity.
+Qed.
+
+Lemma date_leb_later_year y' y m' m : y < y' -> date_leb (y', m', 1) (y, m, 1) = false.
+Proof.
+  intro H. unfold date_leb. destruct (Z.ltb_spec y' y); [lia|]. destruct (Z.eqb_spec y' y); [lia|]. reflexivity.
+Qed.
+
+Lemma month_entry_dates v fs y m s e : In (s, e) (month_entry v fs y m) -> s = (y, m, 1).
+Proof.
+  unfold month_entry. destruct (pick fs (y, m, 1) None) as [[e0 w]|]; [|intros []].
+  intros [H|[]]. now inversion H.
+Qed.
+
+Lemma months_seq : months = map Z.of_nat (seq 1 12).
+Proof. reflexivity. Qed.
+
+Lemma flat_map_map {A B C} (f : B -> list C) (g : A -> B) l :
+  flat_map f (map g l) = flat_map (fun x => f (g x)) l.
+Proof. induction l as [|x l IH]; cbn; [reflexivity|now rewrite IH]. Qed.
+
+Lemma year_entries_dates v fs y s e :
+  In (s, e) (year_entries v fs y) -> exists m, s = (y, m, 1).
+Proof.
+  unfold year_entries. intro H. apply in_flat_map in H as (m & _ & H).
+  exists m. eapply month_entry_dates; eauto.
+Qed.
+
+(** what the rendered list selects for a month of the window *)
+Lemma latest_formula_unroll y0 ny v fs k m e w acc :
+  (k < ny)%nat -> 1 <= m <= 12 ->
+  pick fs (y0 + Z.of_nat k, m, 1) None = Some (e, w) ->
+  latest_formula (unroll y0 ny v fs) (y0 + Z.of_nat k, m, 1) acc
+  = Some (if w && negb (m =? 1) then self_january v (y0 + Z.of_nat k) else e).
+Proof.
+  intros Hk Hm Hp. set (y := y0 + Z.of_nat k) in *. unfold unroll.
+  apply latest_formula_flat_map with (t := k); [lia| |].
+  - intros j s e' Hj Hin. apply year_entries_dates in Hin as [m' ->].
+    apply date_leb_later_year. lia.
+  - intro acc'. unfold year_entries. rewrite months_seq, flat_map_map.
+    apply latest_formula_flat_map with (t := Z.to_nat m); [lia| |].
+    + intros j s e' Hj Hin. apply month_entry_dates in Hin. subst s.
+      apply date_leb_later_month. lia.
+    + intro acc''. rewrite Z2Nat.id by lia. unfold month_entry. fold y. rewrite Hp.
+      cbn [latest_formula]. now rewrite date_leb_refl.
+Qed.
+
+Lemma pick_wrapped : forall fs d acc,
+  pick (map (fun f => (f_start f, f_body f, true)) fs) d (option_map (fun ew => (fst ew, true)) acc)
+  = option_map (fun ew => (fst ew, true)) (pick fs d acc).
+Proof.
+  induction fs as [|f fs IH]; intros d acc; cbn [map pick]; [reflexivity|].
+  unfold f_start at 1, f_body at 1, f_wrapped at 1. cbn [fst snd].
+  destruct (date_leb (f_start f) d); [|apply IH].
+  exact (IH d (Some (f_body f, f_wrapped f))).
+Qed.
+
+Lemma has_wrapped_annualized fs d e w :
+  pick fs d None = Some (e, w) -> has_wrapped (map (fun f => (f_start f, f_body f, true)) fs) = true.
+Proof. destruct fs as [|f fs]; [discriminate|]. reflexivity. Qed.
+
+Lemma validb_first y m : 1 <= y -> 1 <= m <= 12 -> validb (y, m, 1) = true.
+Proof.
+  intros Hy Hm. unfold validb.
+  assert (Hd : 1 <= dim y m).
+  { unfold dim. repeat match goal with |- context [if ?c then _ else _] => destruct c end; lia. }
+  repeat (apply andb_true_intro; split); apply Z.leb_le; lia.
+Qed.
+
+(** the formula selected for a month of the window in an annualised month variable *)
+Lemma formula_at_annualized y0 ny v x k m e w :
+  sv_unit x = Month -> 1 <= y0 -> (k < ny)%nat -> 1 <= m <= 12 ->
+  pick (sv_formulas x) (y0 + Z.of_nat k, m, 1) None = Some (e, w) ->
+  match sv_end x with Some en => date_ltb en (y0 + Z.of_nat k, m, 1) = false | None => True end ->
+  formula_at (to_var y0 ny v (annualized x)) (month_of (y0 + Z.of_nat k) m)
+  = Ok (Some (if negb (m =? 1) then self_january v (y0 + Z.of_nat k) else e)).
+Proof.
+  intros Hu Hy0 Hk Hm Hp Hend. set (y := y0 + Z.of_nat k) in *.
+  assert (Hp' : pick (sv_formulas (annualized x)) (y, m, 1) None = Some (e, true)).
+  { cbn [annualized sv_formulas]. change (@None (expr * bool)) with (option_map (fun ew : expr * bool => (fst ew, true)) None).
+    rewrite pick_wrapped, Hp. reflexivity. }
+  assert (Hl : forall acc, latest_formula (v_formulas (to_var y0 ny v (annualized x))) (y, m, 1) acc
+               = Some (if negb (m =? 1) then self_january v y else e)).
+  { intro acc. cbn [to_var v_formulas]. unfold rendered. cbn [annualized sv_unit sv_formulas].
+    rewrite Hu, (has_wrapped_annualized _ _ _ _ Hp). cbn [unit_eqb andb].
+    cbn [annualized sv_formulas] in Hp'.
+    unfold y. rewrite (latest_formula_unroll y0 ny v _ k m e true acc Hk Hm Hp'). reflexivity. }
+  unfold formula_at. unfold month_of, p_start. cbn [fst snd].
+  destruct (v_formulas (to_var y0 ny v (annualized x))) as [|f0 r] eqn:Ef.
+  { specialize (Hl None). cbn in Hl. discriminate. }
+  rewrite validb_first by (unfold y; lia). cbn [negb].
+  cbn [to_var v_end annualized sv_end].
+  destruct (sv_end x) as [en|]; [rewrite Hend|]; now rewrite Hl.
+Qed.
+
+(** Every month of a year of the window yields the January value: for any fuel, the meaning of
+    the annualised variable at month m >= 2 is the meaning at January of that year (cast to the
+    variable's type, which changes nothing for a value of that type). *)
+Theorem annualised_months_lemma : forall y0 ny s v x s' k m e w,
+  nth_error (s_vars s) v = Some x -> apply_var_mod s (Annualize v) = Ok s' ->
+  sv_unit x = Month -> 1 <= y0 -> (k < ny)%nat -> 2 <= m <= 12 ->
+  pick (sv_formulas x) (y0 + Z.of_nat k, m, 1) None = Some (e, w) ->             (* a formula in force *)
+  match sv_end x with Some en => date_ltb en (y0 + Z.of_nat k, m, 1) = false | None => True end ->
+  forall pp inp fuel,
+  lookup (v, month_of (y0 + Z.of_nat k) m) inp = None ->                          (* no input for that month *)
+  let sy' := to_sys y0 ny s' in
+  meaning (S fuel) sy' pp inp v (month_of (y0 + Z.of_nat k) m)
+  = rmap (cast (to_var y0 ny v (annualized x))) (meaning fuel sy' pp inp v (jan (y0 + Z.of_nat k))).
+Proof.
+  intros y0 ny s v x s' k m e w Hx H Hu Hy0 Hk Hm Hp Hend pp inp fuel Hin sy'.
+  cbn [apply_var_mod] in H. rewrite Hx in H.
+  destruct (store_var_spec s v _ s' H (nth_error_lt _ _ _ Hx)) as (S1 & _).
+  set (x' := to_var y0 ny v (annualized x)).
+  assert (Hn : nth_error (vars sy') v = Some x') by (unfold sy'; now rewrite nth_error_to_sys, S1).
+  set (y := y0 + Z.of_nat k) in *.
+  unfold meaning at 1. cbn [den]. rewrite Hn.
+  assert (Hc : check_consistency x' (month_of y m) = Ok tt).
+  { unfold check_consistency, x'. cbn [to_var v_unit annualized sv_unit]. rewrite Hu. reflexivity. }
+  rewrite Hc.
+  assert (Hneu : v_neutral x' = false) by reflexivity. rewrite Hneu.
+  assert (Hnorm : norm x' (month_of y m) = month_of y m).
+  { unfold norm, x'. cbn [to_var v_unit annualized sv_unit]. now rewrite Hu. }
+  rewrite Hnorm, Hin.
+  unfold x' at 1. unfold y. rewrite (formula_at_annualized y0 ny v x k m e w Hu Hy0 Hk ltac:(lia) Hp Hend).
+  destruct (Z.eqb_spec m 1) as [?|_]; [lia|]. cbn [negb].
+  unfold self_january. cbn [eval apply_ptrans]. unfold call. rewrite Hn.
+  assert (He : ent_eqb (v_ent x') (v_ent x') = true) by (destruct (v_ent x'); reflexivity).
+  rewrite He. cbn [negb].
+  fold y. unfold meaning.
+  destruct (den fuel sy' pp inp tt v (jan y)) as [[] r]. reflexivity.
+Qed.
+
+Close Scope Z_scope.
+
+(** * Two systems that agree on the variables below a rank *)
+
+Section Ext2.
+  Variables sy1 sy2 : sys.
+  Variable pp : popu.
+  Variables rec1 rec2 : unit -> nat -> period -> unit * res val.
+  Variable n : nat.
+  Hypothesis Hparams : params sy1 = params sy2.
+  Hypothesis Hsw : switches sy1 = switches sy2.
+  Hypothesis Hlen : length (vars sy1) = length (vars sy2).
+  Hypothesis Hvars : forall w, w < n -> nth_error (vars sy1) w = nth_error (vars sy2) w.
+  Hypothesis Hrec : forall w q, w < n -> snd (rec1 tt w q) = snd (rec2 tt w q).
+
+  Let Hrec' : forall (s : unit) w q, w < n -> True -> True /\ snd (rec1 s w q) = snd (rec2 tt w q).
+  Proof. intros [] w q Hw _. split; auto. Qed.
+
+  Lemma call_ext2 c w q o : (w < n \/ length (vars sy1) <= w) ->
+    snd (call rec1 sy1 c tt w q o) = snd (call rec2 sy2 c tt w q o).
+  Proof.
+    intro Hw. unfold call.
+    destruct Hw as [Hw|Hw].
+    2:{ assert (H1 : nth_error (vars sy1) w = None) by now apply nth_error_None.
+        assert (H2 : nth_error (vars sy2) w = None) by (apply nth_error_None; lia).
+        now rewrite H1, H2. }
+    rewrite <- (Hvars w Hw). destruct (nth_error (vars sy1) w) as [x|]; [|reflexivity].
+    destruct (negb _); [reflexivity|].
+    destruct o; cbn [fst snd]; auto.
+    - exact (proj2 (calc_add_sim rec2 rec1 (fun _ => True) n Hrec' w x q tt Hw I)).
+    - pose proof (proj2 (calc_divide_sim rec2 rec1 (fun _ => True) n Hrec' w x q tt Hw I)) as Hd.
+      destruct (calc_divide rec1 tt w x q) as [[] r1]; destruct (calc_divide rec2 tt w x q) as [[] r2].
+      cbn [snd] in *. subst r2. destruct r1 as [[a d]|]; reflexivity.
+  Qed.
+
+  Lemma eval_ext2 : forall e c p, deps_ok (length (vars sy1)) n e = true ->
+    snd (eval rec1 sy1 pp c tt p e) = snd (eval rec2 sy2 pp c tt p e).
+  Proof.
+    induction e as [z|w pt o|op a IHa b IHb|a IHa|cn IHc a IHa b IHb|k|g role a IHa|role|role a IHa|f|k];
+      intros c p Hd; cbn [eval deps_ok] in *; auto.
+    - destruct (apply_ptrans pt p); [|reflexivity]. apply call_ext2.
+      apply orb_true_iff in Hd as [Hd|Hd]; [left; now apply Nat.ltb_lt|right; now apply Nat.leb_le].
+    - apply andb_true_iff in Hd as [Ha Hb]. specialize (IHa c p Ha). specialize (IHb c p Hb).
+      destruct (eval rec1 sy1 pp c tt p a) as [[] r1]; destruct (eval rec2 sy2 pp c tt p a) as [[] r1'].
+      cbn [snd] in IHa. subst r1'. destruct r1 as [x|]; [|reflexivity].
+      destruct (eval rec1 sy1 pp c tt p b) as [[] r2]; destruct (eval rec2 sy2 pp c tt p b) as [[] r2'].
+      cbn [snd] in IHb. subst r2'. destruct r2; reflexivity.
+    - specialize (IHa c p Hd).
+      destruct (eval rec1 sy1 pp c tt p a) as [[] r1]; destruct (eval rec2 sy2 pp c tt p a) as [[] r1'].
+      cbn [snd] in *. now subst r1'.
+    - apply andb_true_iff in Hd as [Hd Hb]. apply andb_true_iff in Hd as [Hc Ha].
+      specialize (IHc c p Hc). specialize (IHa c p Ha). specialize (IHb c p Hb).
+      destruct (eval rec1 sy1 pp c tt p cn) as [[] r1]; destruct (eval rec2 sy2 pp c tt p cn) as [[] r1'].
+      cbn [snd] in IHc. subst r1'. destruct r1 as [x|]; [|reflexivity].
+      destruct (eval rec1 sy1 pp c tt p a) as [[] r2]; destruct (eval rec2 sy2 pp c tt p a) as [[] r2'].
+      cbn [snd] in IHa. subst r2'. destruct r2 as [y|]; [|reflexivity].
+      destruct (eval rec1 sy1 pp c tt p b) as [[] r3]; destruct (eval rec2 sy2 pp c tt p b) as [[] r3'].
+      cbn [snd] in IHb. subst r3'. destruct r3; reflexivity.
+    - rewrite <- Hparams. destruct (nth_error (params sy1) k); [|reflexivity].
+      destruct (get_at _ _); reflexivity.
+    - specialize (IHa EPerson p Hd).
+      destruct (eval rec1 sy1 pp EPerson tt p a) as [[] r1]; destruct (eval rec2 sy2 pp EPerson tt p a) as [[] r1'].
+      cbn [snd] in *. now subst r1'.
+    - specialize (IHa EGroup p Hd).
+      destruct (eval rec1 sy1 pp EGroup tt p a) as [[] r1]; destruct (eval rec2 sy2 pp EGroup tt p a) as [[] r1'].
+      cbn [snd] in *. now subst r1'.
+    - rewrite <- Hsw. destruct (existsb _ _); reflexivity.
+  Qed.
+End Ext2.
+
+(** below the rank of the changed variable the two systems mean the same *)
+Lemma den_below_changed sy1 sy2 pp inp v :
+  ranked sy1 = true ->
+  params sy1 = params sy2 -> switches sy1 = switches sy2 -> length (vars sy1) = length (vars sy2) ->
+  (forall w, w < v -> nth_error (vars sy1) w = nth_error (vars sy2) w) ->
+  forall w f1 f2 q, w < v -> w < f1 -> w < f2 ->
+  snd (den f1 sy1 pp inp tt w q) = snd (den f2 sy2 pp inp tt w q).
+Proof.
+  intros Hr Hp Hs Hl Hv. induction w as [w IH] using lt_wf_ind. intros f1 f2 q Hw H1 H2.
+  destruct f1 as [|f1]; [lia|]. destruct f2 as [|f2]; [lia|]. cbn [den].
+  rewrite <- (Hv w Hw). destruct (nth_error (vars sy1) w) as [x|] eqn:Ex; [|reflexivity].
+  destruct (check_consistency x q); [|reflexivity].
+  destruct (v_neutral x); [reflexivity|].
+  destruct (lookup _ inp); [reflexivity|].
+  destruct (formula_at x q) as [[e|]|] eqn:Ef; try reflexivity.
+  rewrite !let_pair_snd. f_equal.
+  apply eval_ext2 with (n := w); auto.
+  - intros w' Hw'. apply Hv. lia.
+  - intros w' q' Hw'. apply IH; lia.
+  - eapply formula_at_deps; eauto. now apply ranked_nth.
+Qed.
+
+Lemma latest_plain_pick : forall fs d acc,
+  latest_formula (plain fs) d (option_map fst acc) = option_map fst (pick fs d acc).
+Proof.
+  unfold plain. induction fs as [|[[s e] w] fs IH]; intros d acc; cbn [map latest_formula pick]; [reflexivity|].
+  unfold f_start, f_body, f_wrapped. cbn [fst snd].
+  destruct (date_leb s d); [exact (IH d (Some (e, w)))|apply IH].
+Qed.
+
+Lemma date_leb_trans a b c : date_leb a b = true -> date_leb b c = true -> date_leb a c = true.
+Proof.
+  destruct a as [[y1 m1] d1], b as [[y2 m2] d2], c as [[y3 m3] d3]. unfold date_leb.
+  rewrite !orb_true_iff, !andb_true_iff, !orb_true_iff, !andb_true_iff, !Z.ltb_lt, !Z.eqb_eq, !Z.leb_le. lia.
+Qed.
+
+Lemma pick_later : forall fs d d' acc, date_leb d d' = true ->
+  pick fs d acc <> None -> pick fs d' acc <> None.
+Proof.
+  induction fs as [|f fs IH]; intros d d' acc Hdd H; cbn [pick] in *; [exact H|].
+  destruct (date_leb (f_start f) d) eqn:E.
+  - rewrite (date_leb_trans _ _ _ E Hdd). eapply IH; eauto.
+  - destruct (date_leb (f_start f) d'); [|eapply IH; eauto].
+    assert (G : forall fs d acc, acc <> None -> pick fs d acc <> None).
+    { clear. induction fs as [|f fs IH]; intros d acc Ha; cbn [pick]; [exact Ha|].
+      destruct (date_leb _ _); apply IH; [discriminate|exact Ha]. }
+    apply G. discriminate.
+Qed.
+
+Open Scope Z_scope.
+
+(** In January the annualised variable runs the formula of the variable it was made from:
+    when that system is ranked, the January meaning is the original one. *)
+Lemma annualised_january_lemma : forall y0 ny s v x s' k e w pp inp fuel,
+  nth_error (s_vars s) v = Some x -> apply_var_mod s (Annualize v) = Ok s' ->
+  ranked (to_sys y0 ny s) = true ->
+  sv_unit x = Month -> has_wrapped (sv_formulas x) = false -> sv_neutral x = false ->
+  1 <= y0 -> (k < ny)%nat ->
+  pick (sv_formulas x) (y0 + Z.of_nat k, 1, 1) None = Some (e, w) ->
+  match sv_end x with Some en => date_ltb en (y0 + Z.of_nat k, 1, 1) = false | None => True end ->
+  (v < fuel)%nat ->
+  meaning fuel (to_sys y0 ny s') pp inp v (jan (y0 + Z.of_nat k))
+  = meaning fuel (to_sys y0 ny s) pp inp v (jan (y0 + Z.of_nat k)).
+Proof.
+  intros y0 ny s v x s' k e w pp inp fuel Hx H Hr Hu Hw Hneu Hy0 Hk Hp Hend Hf.
+  pose proof H as H0. cbn [apply_var_mod] in H0. rewrite Hx in H0.
+  destruct (store_var_spec s v _ s' H0 (nth_error_lt _ _ _ Hx)) as (S1 & S2 & S3 & S4 & S5 & S6).
+  set (sy := to_sys y0 ny s) in *. set (sy' := to_sys y0 ny s').
+  set (x1 := to_var y0 ny v x). set (x' := to_var y0 ny v (annualized x)).
+  set (y := y0 + Z.of_nat k) in *.
+  assert (Hn1 : nth_error (vars sy) v = Some x1) by (unfold sy; now rewrite nth_error_to_sys, Hx).
+  assert (Hn' : nth_error (vars sy') v = Some x') by (unfold sy'; now rewrite nth_error_to_sys, S1).
+  destruct fuel as [|f]; [lia|]. unfold meaning. cbn [den]. rewrite Hn1, Hn'.
+  assert (Hc1 : check_consistency x1 (jan y) = Ok tt)
+    by (unfold check_consistency, x1; cbn [to_var v_unit]; rewrite Hu; reflexivity).
+  assert (Hc' : check_consistency x' (jan y) = Ok tt)
+    by (unfold check_consistency, x'; cbn [to_var v_unit annualized sv_unit]; rewrite Hu; reflexivity).
+  rewrite Hc1, Hc'.
+  assert (Hv1 : v_neutral x1 = false) by exact Hneu.
+  assert (Hv' : v_neutral x' = false) by reflexivity.
+  rewrite Hv1, Hv'.
+  assert (Hno : norm x' (jan y) = norm x1 (jan y)).
+  { unfold norm, x', x1. cbn [to_var v_unit annualized sv_unit]. reflexivity. }
+  rewrite Hno. destruct (lookup (v, norm x1 (jan y)) inp); [reflexivity|].
+  (* the formulas selected *)
+  assert (Hf' : formula_at x' (jan y) = Ok (Some e)).
+  { unfold x', y. change (jan (y0 + Z.of_nat k)) with (month_of (y0 + Z.of_nat k) 1).
+    rewrite (formula_at_annualized y0 ny v x k 1 e w Hu Hy0 Hk ltac:(lia) Hp Hend). reflexivity. }
+  assert (Hf1 : formula_at x1 (jan y) = Ok (Some e)).
+  { assert (Hl : latest_formula (v_formulas x1) (y, 1, 1) None = Some e).
+    { unfold x1. cbn [to_var v_formulas]. unfold rendered. rewrite Hw, andb_false_r.
+      change (@None expr) with (option_map (@fst expr bool) None). rewrite latest_plain_pick, Hp. reflexivity. }
+    unfold formula_at. unfold jan, p_start. cbn [fst snd].
+    destruct (v_formulas x1) as [|f0 r] eqn:Ef; [cbn in Hl; discriminate|].
+    rewrite validb_first by (unfold y; lia). cbn [negb].
+    unfold x1. cbn [to_var v_end]. destruct (sv_end x) as [en|]; [rewrite Hend|]; now rewrite Hl. }
+  rewrite Hf', Hf1. rewrite !let_pair_snd.
+  assert (Hcast : cast x' = cast x1) by reflexivity. rewrite Hcast. f_equal.
+  assert (Hent : v_ent x' = v_ent x1) by reflexivity. rewrite Hent.
+  assert (E1 : params sy = params sy') by (unfold sy, sy', to_sys; cbn [params]; congruence).
+  assert (E2 : switches sy = switches sy') by (unfold sy, sy', to_sys; cbn [switches]; congruence).
+  assert (E3 : length (vars sy) = length (vars sy'))
+    by (unfold sy, sy', to_sys; cbn [vars]; rewrite !length_to_vars; congruence).
+  assert (E4 : forall u, (u < v)%nat -> nth_error (vars sy) u = nth_error (vars sy') u).
+  { intros u Hu'. unfold sy, sy'. rewrite !nth_error_to_sys, S2; [reflexivity|lia]. }
+  symmetry. apply eval_ext2 with (n := v); auto.
+  - intros u q Hu'. apply den_below_changed with (v := v); auto; lia.
+  - eapply formula_at_deps; [|exact Hf1]. now apply ranked_nth.
+Qed.
+
+(** C14's clause: in a system derived by annualising month variable v of a ranked system,
+    every month of a year of the window means what January of that year means in the
+    ORIGINAL system. *)
+Theorem annualised_spec_lemma : forall y0 ny s v x s' k m e w pp inp,
+  nth_error (s_vars s) v = Some x -> apply_var_mod s (Annualize v) = Ok s' ->
+  ranked (to_sys y0 ny s) = true -> (1 <= s_loops s)%nat ->
+  sv_unit x = Month -> has_wrapped (sv_formulas x) = false -> sv_neutral x = false ->
+  1 <= y0 -> (k < ny)%nat -> 2 <= m <= 12 ->
+  pick (sv_formulas x) (y0 + Z.of_nat k, 1, 1) None = Some (e, w) ->             (* a formula in force in January *)
+  match sv_end x with Some en => date_ltb en (y0 + Z.of_nat k, m, 1) = false | None => True end ->
+  lookup (v, month_of (y0 + Z.of_nat k) m) inp = None ->                          (* no input for that month *)
+  sem (to_sys y0 ny s') pp inp v (month_of (y0 + Z.of_nat k) m)
+  = rmap (cast (to_var y0 ny v x)) (sem (to_sys y0 ny s) pp inp v (jan (y0 + Z.of_nat k))).
+Proof.
+  intros y0 ny s v x s' k m e w pp inp Hx H Hr Hl Hu Hw Hneu Hy0 Hk Hm Hp Hend Hin.
+  set (y := y0 + Z.of_nat k) in *.
+  assert (Hjm : date_leb (y, 1, 1) (y, m, 1) = true).
+  { unfold date_leb. rewrite Z.eqb_refl. destruct (Z.ltb_spec 1 m); [|lia]. cbn. now rewrite orb_true_r. }
+  (* a formula in force in January is in force in month m *)
+  destruct (pick (sv_formulas x) (y, m, 1) None) as [[em wm]|] eqn:Epm.
+  2:{ exfalso. apply (pick_later (sv_formulas x) (y, 1, 1) (y, m, 1) None Hjm); [rewrite Hp; discriminate|exact Epm]. }
+  (* not ended in month m, hence not ended in January *)
+  assert (Hend1 : match sv_end x with Some en => date_ltb en (y, 1, 1) = false | None => True end).
+  { destruct (sv_end x) as [en|]; [|exact I].
+    destruct (date_ltb en (y, 1, 1)) eqn:E; [|reflexivity]. exfalso.
+    unfold date_ltb in *. apply andb_true_iff in E as [E1 E2].
+    rewrite (date_leb_trans _ _ _ E1 Hjm) in Hend. cbn [andb] in Hend.
+    apply negb_false_iff in Hend. apply date_eqb_iff in Hend. subst en.
+    assert (date_leb (y, m, 1) (y, 1, 1) = false) by (apply date_leb_later_month; lia). congruence. }
+  pose proof H as H0. cbn [apply_var_mod] in H0. rewrite Hx in H0.
+  destruct (store_var_spec s v _ s' H0 (nth_error_lt _ _ _ Hx)) as (S1 & S2 & S3 & S4 & S5 & S6).
+  assert (Hlen : length (vars (to_sys y0 ny s')) = length (vars (to_sys y0 ny s))).
+  { unfold to_sys. cbn [vars]. rewrite !length_to_vars. exact S3. }
+  assert (Hv : (v < length (vars (to_sys y0 ny s)))%nat).
+  { unfold to_sys. cbn [vars]. rewrite length_to_vars. eapply nth_error_lt; eauto. }
+  unfold sem at 1, sem_rec. rewrite Hlen.
+  change (snd (den (S (length (vars (to_sys y0 ny s)))) (to_sys y0 ny s') pp inp tt v (month_of y m)))
+    with (meaning (S (length (vars (to_sys y0 ny s)))) (to_sys y0 ny s') pp inp v (month_of y m)).
+  unfold y. rewrite (annualised_months_lemma y0 ny s v x s' k m em wm Hx H Hu Hy0 Hk Hm Epm Hend pp inp _ Hin).
+  rewrite (annualised_january_lemma y0 ny s v x s' k e w pp inp _ Hx H Hr Hu Hw Hneu Hy0 Hk Hp Hend1 Hv).
+  assert (Hcast : cast (to_var y0 ny v (annualized x)) = cast (to_var y0 ny v x)) by reflexivity.
+  rewrite Hcast. f_equal.
+  unfold meaning, sem, sem_rec. apply den_fuel; auto.
+Qed.
+
+(** * The machine on an annualised variable whose January value is already known *)
+
+Lemma calc_cached : forall fuel sy pp s v p x a,
+  nth_error (vars sy) v = Some x -> check_consistency x p = Ok tt -> v_neutral x = false ->
+  lookup (v, norm x p) (cache s) = Some a -> invalid s = [] ->
+  calc (S fuel) sy pp s v p = (purge sy (pop (push (v, p) s)), Ok a).
+Proof.
+  intros fuel sy pp s v p x a Hn Hc Hneu Hl Hi. cbn [calc]. unfold calc_body. rewrite Hn, Hc.
+  unfold get_array. rewrite Hneu. cbn [push cache invalid]. rewrite Hl, Hi. reflexivity.
+Qed.
+
+Theorem annualised_machine_lemma : forall y0 ny s v x s' k m e w pp st fuel a,
+  nth_error (s_vars s) v = Some x -> apply_var_mod s (Annualize v) = Ok s' ->
+  sv_unit x = Month -> 1 <= y0 -> (k < ny)%nat -> 2 <= m <= 12 ->
+  pick (sv_formulas x) (y0 + Z.of_nat k, m, 1) None = Some (e, w) ->
+  match sv_end x with Some en => date_ltb en (y0 + Z.of_nat k, m, 1) = false | None => True end ->
+  (1 <= s_loops s)%nat ->
+  stack st = [] -> invalid st = [] ->                                  (* between two requests *)
+  lookup (v, jan (y0 + Z.of_nat k)) (cache st) = Some a ->            (* January is known *)
+  lookup (v, month_of (y0 + Z.of_nat k) m) (cache st) = None ->       (* the month is not *)
+  snd (calc (S (S fuel)) (to_sys y0 ny s') pp st v (month_of (y0 + Z.of_nat k) m))
+  = Ok (cast (to_var y0 ny v (annualized x)) a).
+Proof.
+  intros y0 ny s v x s' k m e w pp st fuel a Hx H Hu Hy0 Hk Hm Hp Hend Hloops Hst Hinv Hjan Hmon.
+  cbn [apply_var_mod] in H. rewrite Hx in H.
+  destruct (store_var_spec s v _ s' H (nth_error_lt _ _ _ Hx)) as (S1 & S2 & S3 & S4 & S5 & S6).
+  set (sy' := to_sys y0 ny s'). set (x' := to_var y0 ny v (annualized x)).
+  set (y := y0 + Z.of_nat k) in *.
+  assert (Hn : nth_error (vars sy') v = Some x') by (unfold sy'; now rewrite nth_error_to_sys, S1).
+  assert (Hc : forall mm, check_consistency x' (month_of y mm) = Ok tt).
+  { intro mm. unfold check_consistency, x'. cbn [to_var v_unit annualized sv_unit]. rewrite Hu. reflexivity. }
+  assert (Hnorm : forall mm, norm x' (month_of y mm) = month_of y mm).
+  { intro mm. unfold norm, x'. cbn [to_var v_unit annualized sv_unit]. now rewrite Hu. }
+  assert (Hneu : v_neutral x' = false) by reflexivity.
+  assert (HL : max_loops sy' = s_loops s) by (unfold sy', to_sys; cbn [max_loops]; exact S6).
+  remember (S fuel) as f1 eqn:Ef1. cbn [calc]. unfold calc_body at 1. rewrite Hn, Hc.
+  unfold get_array at 1. rewrite Hneu, Hnorm. cbn [push cache stack tl]. rewrite Hmon, Hst.
+  cbn [prev_periods filter map existsb length]. rewrite HL.
+  destruct (Nat.leb_spec (s_loops s) 0) as [?|_]; [lia|].
+  unfold x' at 1, y at 1. rewrite (formula_at_annualized y0 ny v x k m e w Hu Hy0 Hk ltac:(lia) Hp Hend).
+  destruct (Z.eqb_spec m 1) as [?|_]; [lia|]. cbn [negb].
+  unfold self_january. cbn [eval apply_ptrans]. unfold call. rewrite Hn.
+  assert (He : ent_eqb (v_ent x') (v_ent x') = true) by (destruct (v_ent x'); reflexivity).
+  rewrite He. cbn [negb]. fold y.
+  change (jan y) with (month_of y 1). subst f1.
+  rewrite (calc_cached fuel sy' pp _ v (month_of y 1) x' a Hn (Hc 1) Hneu).
+  - reflexivity.
+  - rewrite Hnorm. cbn [push cache]. exact Hjan.
+  - cbn [push invalid]. exact Hinv.
+Qed.
+
+(** * Before the repair of F14: clone() re-bound the shared entity objects to the copy *)
+
+Definition refuted_sys : ssys :=
+  of_sys {| vars := [ mk_var EPerson TInt Month None [((1, 1, 1), EConst 17)] 11 false false ];
+            params := []; switches := []; max_loops := 1 |}.
+Definition refuted_ops : list dop := [DClone 0; DMod 1 (Neutralize 0)].
+
+Lemma clone_shares_refuted_lemma :
+  let w := initial refuted_sys in
+  (forall o, In o refuted_ops -> target_of o <> Some 0%nat)
+  /\ look (run_dops true w refuted_ops) 0 1 [] <> look w 0 1 []
+  /\ resolve (run_dops true w refuted_ops) 0 0 = Some 1%nat
+  /\ look (run_dops false w refuted_ops) 0 1 [] = look w 0 1 [].
+Proof.
+  cbv zeta. split; [|split; [|split]].
+  - intros o [<-|[<-|[]]]; discriminate.
+  - vm_compute. discriminate.
+  - vm_compute. reflexivity.
+  - vm_compute. reflexivity.
+Qed.
+
+(** * The rest of a derived system is the original *)
+
+Lemma store_var_rest s name x s' :
+  store_var s name x = Ok s' ->
+  (forall u, u <> name -> nth_error (s_vars s') u = nth_error (s_vars s) u)
+  /\ s_params s' = s_params s.
+Proof.
+  unfold store_var. destruct (Nat.ltb_spec name (length (s_vars s))) as [Hlt|Hge].
+  - intro H. inversion H; subst s'. cbn. split; auto. intros u Hu. now apply nth_error_set_nth_neq.
+  - destruct (Nat.eqb_spec name (length (s_vars s))) as [->|_]; [|discriminate].
+    intro H. inversion H; subst s'. cbn. split; auto. intros u Hu.
+    destruct (Nat.lt_ge_cases u (length (s_vars s))) as [Hu1|Hu1].
+    + now rewrite nth_error_app1.
+    + assert (nth_error (s_vars s) u = None) by now apply nth_error_None.
+      assert (nth_error (s_vars s ++ [x]) u = None) by (apply nth_error_None; rewrite app_length; cbn; lia).
+      congruence.
+Qed.
+
+Definition mod_name (m : vmod) : option nat :=
+  match m with
+  | AddVar v _ | UpdateVar v _ | ReplaceVar v _ | Neutralize v | Annualize v => Some v
+  | ModifyParams _ | EditParams _ => None
+  end.
+
+(** a modification of variable v leaves every other variable and the parameters as they
+    were; a parameter edit leaves the variables as they were *)
+Theorem var_mod_rest_lemma : forall s m s', apply_var_mod s m = Ok s' ->
+  match mod_name m with
+  | Some v => (forall u, u <> v -> nth_error (s_vars s') u = nth_error (s_vars s) u) /\ s_params s' = s_params s
+  | None => s_vars s' = s_vars s
+  end.
+Proof.
+  intros s m s' H. destruct m as [v d|v d|v d|v|v|ups|ups]; cbn [apply_var_mod mod_name] in *.
+  - destruct (nth_error (s_vars s) v); [discriminate|].
+    destruct (instantiate None d); [|discriminate]. eapply store_var_rest; eauto.
+  - destruct (instantiate _ d); [|discriminate]. eapply store_var_rest; eauto.
+  - destruct (instantiate None d); [|discriminate]. eapply store_var_rest; eauto.
+  - destruct (nth_error (s_vars s) v); [|discriminate]. eapply store_var_rest; eauto.
+  - destruct (nth_error (s_vars s) v); [|discriminate]. eapply store_var_rest; eauto.
+  - discriminate.
+  - destruct (apply_param_updates _ _); [|discriminate]. inversion H; subst. reflexivity.
+Qed.
+
+(** a copy starts as the system it was copied from, with entities of its own *)
+Theorem clone_copies_lemma : forall w i e w',
+  nth_error (w_entries w) i = Some e -> apply_dop false w (DClone i) = Ok w' ->
+  exists e', nth_error (w_entries w') (length (w_entries w)) = Some e'
+  /\ e_sys e' = e_sys e /\ e_base e' = e_base e
+  /\ (forall id, In id (e_ents e') -> ~ In id (e_ents e) \/ (length (w_heap w) <= id)%nat)
+  /\ (forall id, In id (e_ents e') -> nth_error (w_heap w') id = Some (length (w_entries w))).
+Proof.
+  intros w i e w' Hi H. cbn [apply_dop] in H. rewrite Hi in H. unfold alloc_entities in H.
+  inversion H; subst w'; clear H. cbn [w_entries w_heap].
+  eexists. split; [rewrite nth_error_app2, Nat.sub_diag by lia; reflexivity|].
+  cbn [e_sys e_base e_ents]. repeat split; auto.
+  - intros id Hin. right. cbn in Hin. destruct Hin as [<-|[<-|[]]]; lia.
+  - intros id Hin.
+    assert (Hid : (length (w_heap w) <= id < length (w_heap w) + 2)%nat)
+      by (cbn in Hin; destruct Hin as [<-|[<-|[]]]; lia).
+    rewrite nth_error_app2 by lia.
+    unfold nb_entities in *. destruct (id - length (w_heap w))%nat as [|[|n]] eqn:E; cbn; try reflexivity. lia.
+Qed.
